@@ -93,6 +93,67 @@ impl PO {
         o = o.with_leading_digit_symbols(self.digit);
         o
     }
+    /// The same option set built the way a user who only sets what differs from `Options::new()`
+    /// would build it: additive keyword calls, no call for options left at their documented
+    /// `new()` state (no keywords, nil/t symbols, brackets lists, R6RS strings and chars, no
+    /// Racket symbols, no leading-digit symbols).
+    pub fn to_lexpr_sparse(&self) -> lexpr::parse::Options {
+        let mut o = lexpr::parse::Options::new();
+        if self.kw & KW_POSTFIX != 0 {
+            o = o.with_keyword_syntax(KeywordSyntax::ColonPostfix);
+        }
+        if self.kw & KW_OCTO != 0 {
+            o = o.with_keyword_syntax(KeywordSyntax::Octothorpe);
+        }
+        if self.kw & KW_PREFIX != 0 {
+            o = o.with_keyword_syntax(KeywordSyntax::ColonPrefix);
+        }
+        if self.nil != 0 {
+            o = o.with_nil_symbol(if self.nil == 1 { NilSymbol::EmptyList } else { NilSymbol::Special });
+        }
+        if self.t != 0 {
+            o = o.with_t_symbol(TSymbol::True);
+        }
+        if self.brackets != 0 {
+            o = o.with_brackets(Brackets::Vector);
+        }
+        if self.string != 0 {
+            o = o.with_string_syntax(StringSyntax::Elisp);
+        }
+        if self.chr != 0 {
+            o = o.with_char_syntax(CharSyntax::Elisp);
+        }
+        if self.racket {
+            o = o.with_racket_hash_percent_symbols(true);
+        }
+        if self.digit {
+            o = o.with_leading_digit_symbols(true);
+        }
+        o
+    }
+    /// The same option set reached from the Emacs Lisp preset by overriding every option (in
+    /// reverse order of `to_lexpr`): a builder call must replace, not accumulate, state.
+    pub fn to_lexpr_from_elisp(&self) -> lexpr::parse::Options {
+        let mut o = lexpr::parse::Options::elisp();
+        o = o.with_leading_digit_symbols(self.digit);
+        o = o.with_racket_hash_percent_symbols(self.racket);
+        o = o.with_char_syntax(if self.chr == 0 { CharSyntax::R6RS } else { CharSyntax::Elisp });
+        o = o.with_string_syntax(if self.string == 0 { StringSyntax::R6RS } else { StringSyntax::Elisp });
+        o = o.with_brackets(if self.brackets == 0 { Brackets::List } else { Brackets::Vector });
+        o = o.with_t_symbol(if self.t == 0 { TSymbol::Default } else { TSymbol::True });
+        o = o.with_nil_symbol(match self.nil {
+            0 => NilSymbol::Default,
+            1 => NilSymbol::EmptyList,
+            _ => NilSymbol::Special,
+        });
+        let mut kws = Vec::new();
+        for (f, k) in [(KW_POSTFIX, KeywordSyntax::ColonPostfix), (KW_PREFIX, KeywordSyntax::ColonPrefix), (KW_OCTO, KeywordSyntax::Octothorpe)] {
+            if self.kw & f != 0 {
+                kws.push(k);
+            }
+        }
+        o.with_keyword_syntaxes(kws)
+    }
     pub fn describe(&self) -> String {
         format!(
             "kw={}{}{} nil={} t={} br={} str={} chr={} racket={} digit={}",
